@@ -400,3 +400,239 @@ class SimWrap : public Oomd::Engine::BasePlugin {
 namespace Oomd {
 REGISTER_PLUGIN(sim_wrap, sim::SimWrap::create);
 }
+
+// sim_probe: queries every public statistic accessor of CgroupContext for the
+// configured cgroups, twice each and in a plan-chosen order, in prerun and in
+// run, and the system context once per tick.
+namespace sim {
+namespace {
+Json::Value optI(const std::optional<int64_t>& v) {
+  return v ? Json::Value((Json::Int64)*v) : Json::Value();
+}
+Json::Value optD(const std::optional<double>& v) {
+  return v ? Json::Value(*v) : Json::Value();
+}
+Json::Value optB(const std::optional<bool>& v) {
+  return v ? Json::Value(*v) : Json::Value();
+}
+Json::Value psiJ(const std::optional<Oomd::ResourcePressure>& p) {
+  if (!p)
+    return Json::Value();
+  Json::Value a(Json::arrayValue);
+  a.append((double)p->sec_10);
+  a.append((double)p->sec_60);
+  a.append((double)p->sec_300);
+  a.append(p->total ? Json::Value((Json::Int64)p->total->count())
+                    : Json::Value());
+  return a;
+}
+} // namespace
+
+class SimProbe : public Oomd::Engine::BasePlugin {
+ public:
+  int init(const Oomd::Engine::PluginArgs& args,
+           const Oomd::PluginConstructionContext& context) override {
+    argParser_.addArgument("id", id_, true);
+    argParser_.addArgumentCustom(
+        "cgroup", cgroups_, [context](const std::string& s) {
+          return Oomd::PluginArgParser::parseCgroup(context, s);
+        }, true);
+    argParser_.addArgument("order", order_);
+    if (!argParser_.parse(args))
+      return 1;
+    return 0;
+  }
+  Json::Value one(const Oomd::CgroupContext& c, const std::string& f) {
+    using E = Oomd::CgroupContext::Error;
+    E err = E::NO_ERROR;
+    if (f == "children") {
+      const auto& ch = c.children(&err);
+      if (!ch)
+        return Json::Value();
+      std::vector<std::string> v = *ch;
+      std::sort(v.begin(), v.end());
+      Json::Value a(Json::arrayValue);
+      for (auto& s : v)
+        a.append(s);
+      return a;
+    }
+    if (f == "mem_pressure")
+      return psiJ(c.mem_pressure(&err));
+    if (f == "mem_pressure_some")
+      return psiJ(c.mem_pressure_some(&err));
+    if (f == "io_pressure")
+      return psiJ(c.io_pressure(&err));
+    if (f == "io_pressure_some")
+      return psiJ(c.io_pressure_some(&err));
+    if (f == "memory_stat") {
+      const auto& m = c.memory_stat(&err);
+      if (!m)
+        return Json::Value();
+      Json::Value o(Json::objectValue);
+      for (auto& kv : *m)
+        o[kv.first] = (Json::Int64)kv.second;
+      return o;
+    }
+    if (f == "io_stat") {
+      const auto& m = c.io_stat(&err);
+      if (!m)
+        return Json::Value();
+      Json::Value a(Json::arrayValue);
+      for (auto& d : *m) {
+        Json::Value e(Json::arrayValue);
+        e.append(d.dev_id);
+        e.append((Json::Int64)d.rbytes);
+        e.append((Json::Int64)d.wbytes);
+        e.append((Json::Int64)d.rios);
+        e.append((Json::Int64)d.wios);
+        e.append((Json::Int64)d.dbytes);
+        e.append((Json::Int64)d.dios);
+        a.append(e);
+      }
+      return a;
+    }
+    if (f == "id") {
+      auto v = c.id(&err);
+      return v ? Json::Value((Json::UInt64)*v) : Json::Value();
+    }
+    if (f == "current_usage")
+      return optI(c.current_usage(&err));
+    if (f == "swap_usage")
+      return optI(c.swap_usage(&err));
+    if (f == "swap_max")
+      return optI(c.swap_max(&err));
+    if (f == "memory_low")
+      return optI(c.memory_low(&err));
+    if (f == "memory_min")
+      return optI(c.memory_min(&err));
+    if (f == "memory_high")
+      return optI(c.memory_high(&err));
+    if (f == "memory_high_tmp")
+      return optI(c.memory_high_tmp(&err));
+    if (f == "memory_max")
+      return optI(c.memory_max(&err));
+    if (f == "nr_dying_descendants")
+      return optI(c.nr_dying_descendants(&err));
+    if (f == "is_populated")
+      return optB(c.is_populated(&err));
+    if (f == "kill_preference") {
+      auto v = c.kill_preference(&err);
+      return v ? Json::Value((int)*v) : Json::Value();
+    }
+    if (f == "oom_group")
+      return optB(c.oom_group(&err));
+    if (f == "effective_swap_max")
+      return optI(c.effective_swap_max(&err));
+    if (f == "effective_swap_free")
+      return optI(c.effective_swap_free(&err));
+    if (f == "effective_swap_util_pct")
+      return optD(c.effective_swap_util_pct(&err));
+    if (f == "memory_protection")
+      return optI(c.memory_protection(&err));
+    if (f == "io_cost_cumulative")
+      return optD(c.io_cost_cumulative(&err));
+    if (f == "pg_scan_cumulative")
+      return optI(c.pg_scan_cumulative(&err));
+    if (f == "average_usage")
+      return optI(c.average_usage(&err));
+    if (f == "io_cost_rate")
+      return optD(c.io_cost_rate(&err));
+    if (f == "pg_scan_rate")
+      return optI(c.pg_scan_rate(&err));
+    if (f == "anon_usage")
+      return optI(c.anon_usage(&err));
+    if (f == "file_usage")
+      return optI(c.file_usage(&err));
+    if (f == "shmem_usage")
+      return optI(c.shmem_usage(&err));
+    if (f == "effective_usage")
+      return optI(c.effective_usage(&err));
+    if (f == "memory_growth")
+      return optD(c.memory_growth(&err));
+    return Json::Value("?");
+  }
+  void sweep(Oomd::OomdContext& ctx, const char* phase) {
+    static const char* kFields[] = {
+        "children", "mem_pressure", "mem_pressure_some", "io_pressure",
+        "io_pressure_some", "memory_stat", "io_stat", "id", "current_usage",
+        "swap_usage", "swap_max", "memory_low", "memory_min", "memory_high",
+        "memory_high_tmp", "memory_max", "nr_dying_descendants",
+        "is_populated", "kill_preference", "oom_group", "effective_swap_max",
+        "effective_swap_free", "effective_swap_util_pct", "memory_protection",
+        "io_cost_cumulative", "pg_scan_cumulative", "average_usage",
+        "io_cost_rate", "pg_scan_rate", "anon_usage", "file_usage",
+        "shmem_usage", "effective_usage", "memory_growth"};
+    std::vector<std::string> fields(std::begin(kFields), std::end(kFields));
+    // plan-chosen query order
+    Rng rng((uint64_t)order_ * 7919 + (uint64_t)R.tick * 31 +
+            (phase[0] == 'p' ? 1 : 2));
+    for (size_t i = fields.size(); i > 1; i--)
+      std::swap(fields[i - 1], fields[rng.below(i)]);
+    for (const auto& cgref : ctx.addToCacheAndGet(cgroups_)) {
+      const Oomd::CgroupContext& c = cgref.get();
+      Json::Value vals(Json::objectValue);
+      Json::Value unstable(Json::arrayValue);
+      for (auto& f : fields) {
+        Json::Value a = one(c, f);
+        Json::Value b = one(c, f);
+        vals[f] = a;
+        if (jstr(a) != jstr(b))
+          unstable.append(f);
+      }
+      Ev e;
+      e.kind = "probe";
+      e.who = id_;
+      e.a = phase;
+      std::string rel = c.cgroup().relativePath();
+      Json::Value hashed = vals;
+      hashed.removeMember("id");
+      e.b = "/" + rel + " " + jstr(hashed);
+      e.extra["vals"] = vals;
+      e.extra["unstable"] = unstable;
+      e.extra["rel"] = rel;
+      struct stat st;
+      if (::fstat(c.fd().fd(), &st) == 0)
+        if (Cg* wc = W.byDirIno(st.st_ino))
+          e.inc = wc->inc;
+      record(std::move(e));
+    }
+  }
+  void prerun(Oomd::OomdContext& ctx) override {
+    sweep(ctx, "prerun");
+  }
+  Oomd::Engine::PluginRet run(Oomd::OomdContext& ctx) override {
+    sweep(ctx, "run");
+    const auto& sc = ctx.getSystemContext();
+    Json::Value s(Json::objectValue);
+    s["swaptotal"] = (Json::UInt64)sc.swaptotal;
+    s["swapused"] = (Json::UInt64)sc.swapused;
+    s["swappiness"] = sc.swappiness;
+    s["swapout_bps"] = sc.swapout_bps;
+    s["swapout_bps_60"] = sc.swapout_bps_60;
+    s["swapout_bps_300"] = sc.swapout_bps_300;
+    Json::Value vm(Json::objectValue);
+    for (auto& kv : sc.vmstat)
+      vm[kv.first] = (Json::Int64)kv.second;
+    s["vmstat"] = vm;
+    Ev e;
+    e.kind = "probe";
+    e.who = id_;
+    e.a = "system";
+    e.b = jstr(s);
+    e.extra["vals"] = s;
+    record(std::move(e));
+    return Oomd::Engine::PluginRet::CONTINUE;
+  }
+  static SimProbe* create() {
+    return new SimProbe();
+  }
+
+ private:
+  std::string id_;
+  std::unordered_set<Oomd::CgroupPath> cgroups_;
+  int order_ = 0;
+};
+} // namespace sim
+namespace Oomd {
+REGISTER_PLUGIN(sim_probe, sim::SimProbe::create);
+}
